@@ -114,7 +114,13 @@ func flowModule() *module {
 				}
 			}
 		case 1: // valid but never binding in the probe
-			switch rng.Intn(3) {
+			switch rng.Intn(4) {
+			case 3:
+				// (a memory-adaptive pacing rule: it keeps no window of its own - a rule that replaces it must not inherit one)
+				mk0 = func() *flow.Rule {
+					return &flow.Rule{ID: id, Resource: res, TokenCalculateStrategy: flow.MemoryAdaptive, ControlBehavior: flow.Throttling,
+						LowMemUsageThreshold: 1e9, HighMemUsageThreshold: 5e8, MemLowWaterMarkBytes: 1000, MemHighWaterMarkBytes: 2000}
+				}
 			case 0:
 				mk0 = func() *flow.Rule {
 					return &flow.Rule{ID: id, Resource: res, TokenCalculateStrategy: flow.Direct, ControlBehavior: flow.Throttling, Threshold: 1e9}
